@@ -7,6 +7,7 @@ package main
 // position, (3) malformed lines for ParseGlobals and EvalExpr.
 
 import (
+	"fmt"
 	"math"
 	"regexp"
 	"strconv"
@@ -216,4 +217,56 @@ func c06TemplateBody(files []srcFile, name string) string {
 		}
 	}
 	return all.String()
+}
+
+// c06CheckDepth ties C06_render_total_depth to the run: for a recursion plan whose call depth d is known by
+// construction, the model walker capped at d must answer with fuel reg_height*(d+1) (the theorem's bound),
+// capped at d-1 it must report the cap (d is the depth the run really reaches), and render with that fuel
+// must not run out of fuel.
+func c06CheckDepth(e *env, p c06Plan, m []string) {
+	d := p.depth - 1
+	e.res.Histogram["depth-bound-checked"]++
+	if len(m) != 4 {
+		e.res.Fail(hx.Violation{Kind: "mismatch", What: "model c06_depth failed", Case: p.c, Observed: fmt.Sprint(m)}, "")
+		return
+	}
+	want := []string{"answer", "capped", "answer"}
+	if d == 0 {
+		want[1] = "none"
+	}
+	if m[1] != want[0] || m[2] != want[1] || m[3] != want[2] {
+		e.res.Fail(hx.Violation{Kind: "mismatch",
+			What:     fmt.Sprintf("the fuel bound reg_height*(d+1) of C06_render_total_depth does not behave as proved on a run of call depth d=%d (fuel %s): capped walk at d / at d-1 / render", d, m[0]),
+			Case:     p.c, Expected: strings.Join(want, " "), Observed: strings.Join(m[1:], " ")}, "")
+	}
+}
+
+// c06BytesMax bounds the inputs handed to the byte-string model (scanner + parser models run in the model
+// runner; a 64 KiB line of parentheses would be parsed by recursion there)
+const c06BytesMax = 4096
+
+// c06CompareBytes compares one answer of the byte-string model (c06_eval_bytes / c06_globals_bytes:
+// scanner model -> parser model -> evaluator, no parse result supplied by the implementation) with the
+// implementation's class and value.  implCls: ok | error (evaluation or parse error).
+func c06CompareBytes(e *env, what string, c interface{}, implCls, implVal string, m []string, canon func(string) string, skipValue bool) {
+	if len(m) == 0 || strings.HasPrefix(m[0], "!") {
+		e.res.Fail(hx.Violation{Kind: "mismatch", What: "byte-string model of " + what + " failed", Case: c, Observed: fmt.Sprint(m)}, "")
+		return
+	}
+	e.res.Histogram[what+"-bytes-model:"+m[0]]++
+	switch m[0] {
+	case "outofmodel", "fuel":
+	case "ok":
+		if implCls != "ok" {
+			e.res.Fail(hx.Violation{Kind: "mismatch", What: what + " returns an error, the byte-string model (scanner+parser+evaluator) a value", Case: c, Expected: strings.Join(m[1:], " "), Observed: implVal}, "")
+		} else if got, want := canon(implVal), canon(strings.Join(m[1:], " ")); got != want && !skipValue {
+			e.res.Fail(hx.Violation{Kind: "mismatch", What: what + "'s value differs from the byte-string model (scanner+parser+evaluator)", Case: c, Expected: want, Observed: got}, "")
+		}
+	case "err":
+		if implCls != "error" {
+			e.res.Fail(hx.Violation{Kind: "mismatch", What: "the byte-string model (scanner+parser+evaluator) reports an error, " + what + " returns a value", Case: c, Expected: m[0], Observed: implVal}, "")
+		}
+	default:
+		e.res.Fail(hx.Violation{Kind: "mismatch", What: "the byte-string model predicts " + m[0] + " but " + what + " returned normally", Case: c, Observed: implCls}, "")
+	}
 }
